@@ -527,6 +527,70 @@ def prep_every_mode(ctx, rule="C02.elision"):
     ctx.require(n >= 4, f"only {n} per-mode preparation loops found in Gaussian._decompose")
 
 
+def mesh_slots(ctx, rule="C02.mesh"):
+    ctx.explain(f"{rule}: (slots) Interferometer._decompose applies the first list a mesh function returns as forward T gates BEFORE the local "
+                "phases and the third list as inverse gates AFTER them. In decompositions.py a list whose elements null the matrix by LEFT "
+                "multiplication (`V = T(*t) @ V`) recomposes as U = Ti ... Ti diag - it is an inverse-after list; one that nulls by RIGHT "
+                "multiplication (`V = V @ Ti(*t)`) is a forward-before list. A mesh that hands back an inverse-after list in the first slot "
+                "(the triangular mesh) needs a branch in _decompose that moves it to the inverse position.")
+    dm = ctx.tree.module("decompositions.py")
+    dec = ctx.tree.func("ops.py", "Interferometer._decompose")
+    cfg = cfg_of(dec.node)
+    # the variables the generic branch unpacks the triple into
+    trip = None
+    for n in walk_no_nested(dec.node):
+        if isinstance(n, ast.Assign) and isinstance(n.targets[0], ast.Tuple) and len(n.targets[0].elts) == 3 and isinstance(n.value, ast.Call) \
+                and all(isinstance(e, ast.Name) for e in n.targets[0].elts):
+            trip = [e.id for e in n.targets[0].elts]
+    ctx.require(trip, "Interferometer._decompose no longer unpacks (BS1, R, BS2) from the mesh function")
+    k = 0
+    for name, g in sorted(dm.functions.items()):
+        if g.cls is not None or "<locals>" in name:
+            continue
+        rets = [v for _, v in return_values(g.node) if isinstance(v, ast.Tuple) and len(v.elts) == 3]
+        if not rets:
+            continue
+        # kind of every list variable: appended to in a loop body that also left- / right-multiplies the working matrix
+        kind = {}
+        for lp in [x for x in ast.walk(g.node) if isinstance(x, ast.For)]:
+            # only statements that sit side by side in the body of this very loop
+            apps = [st.value for st in lp.body if isinstance(st, ast.Expr) and isinstance(st.value, ast.Call) and
+                    isinstance(st.value.func, ast.Attribute) and st.value.func.attr == "append" and isinstance(st.value.func.value, ast.Name)]
+            for st in [x for x in lp.body if isinstance(x, ast.Assign) and isinstance(x.value, ast.BinOp) and isinstance(x.value.op, ast.MatMult)]:
+                tgt = dotted(st.targets[0])
+                l, r = st.value.left, st.value.right
+                for c in apps:
+                    if dotted(r) == tgt and isinstance(l, ast.Call):
+                        kind.setdefault(c.func.value.id, set()).add("inverse-after")   # V = T(..) @ V
+                    if dotted(l) == tgt and isinstance(r, ast.Call):
+                        kind.setdefault(c.func.value.id, set()).add("forward-before")  # V = V @ Ti(..)
+        for v in rets:
+            first = v.elts[0]
+            src = {x.id for x in ast.walk(first) if isinstance(x, ast.Name)} & set(kind)
+            for lv in sorted(src):
+                if len(kind[lv]) != 1:
+                    continue
+                k += 1
+                kd = next(iter(kind[lv]))
+                if kd == "forward-before":
+                    ctx.ob(rule, g.site, True, role=f"slot:{name}", line=g.node.lineno)
+                    continue
+                # an inverse-after list in the forward slot: _decompose must move it for this mesh
+                moved = False
+                for st in walk_no_nested(dec.node):
+                    if isinstance(st, ast.Assign):
+                        tg = [x.id for t_ in st.targets for x in ast.walk(t_) if isinstance(x, ast.Name)]
+                        if trip[2] in tg and trip[0] in {x.id for x in ast.walk(st.value) if isinstance(x, ast.Name)}:
+                            ids = cfg.find(st)
+                            if ids and any(v_ and any(isinstance(c_, ast.Constant) and c_.value == name for c_ in ast.walk(a_))
+                                           for a_, v_ in path_facts(cfg, ids[0])):
+                                moved = True
+                ctx.ob(rule, g.site, moved, "" if moved else f"decompositions.{name} returns in its first slot a list that recomposes as inverse gates "
+                       "AFTER the diagonal (built with `V = T(..) @ V`), and Interferometer._decompose applies that slot as forward gates BEFORE the "
+                       f"phases: mesh='{name}' implements a different unitary than every other mesh", role=f"slot:{name}", line=g.node.lineno)
+    ctx.require(k >= 3, f"only {k} mesh functions with a classified first slot")
+
+
 def product_units(ctx, rule="C02.product-units"):
     Hb.ops_frontend(ctx, rule, only_classes=("Xgate", "Zgate", "Gaussian", "Vgate"))
     ctx.floor(rule, 4)
@@ -537,6 +601,7 @@ def rules(ctx):
     first_param(ctx)
     targets(ctx)
     mesh_table(ctx)
+    mesh_slots(ctx)
     driver(ctx)
     elision(ctx)
     prep_every_mode(ctx)
